@@ -259,12 +259,12 @@ class Network(SimComponent):
         )
         # Update the links one-by-one. The key is a 4-tuple of `hostname_a, port_a, hostname_b, port_b`
         for _, link in self.links.items():
-            node_a = link.endpoint_a._connected_node
-            node_b = link.endpoint_b._connected_node
+            node_a = link.endpoint_a._connected_node if link.endpoint_a else None
+            node_b = link.endpoint_b._connected_node if link.endpoint_b else None
             hostname_a = node_a.config.hostname if node_a else None
             hostname_b = node_b.config.hostname if node_b else None
-            port_a = link.endpoint_a.port_num
-            port_b = link.endpoint_b.port_num
+            port_a = link.endpoint_a.port_num if link.endpoint_a else None
+            port_b = link.endpoint_b.port_num if link.endpoint_b else None
             link_key = f"{hostname_a}:eth-{port_a}<->{hostname_b}:eth-{port_b}"
             state["links"][link_key] = link.describe_state()
             state["links"][link_key]["hostname_a"] = hostname_a
@@ -371,8 +371,9 @@ class Network(SimComponent):
         :param link: The link to be removed
         :type link: Link
         """
-        link.endpoint_a.disconnect_link()
-        link.endpoint_b.disconnect_link()
+        for endpoint in (link.endpoint_a, link.endpoint_b):
+            if endpoint is not None and endpoint._connected_link is link:
+                endpoint.disconnect_link()
         self.links.pop(link.uuid)
         for i, _link in self._link_id_map.items():
             if link == _link:
@@ -380,6 +381,16 @@ class Network(SimComponent):
                 break
         link.parent = None
         _LOGGER.info(f"Removed link {link.uuid} from network {self.uuid}.")
+
+    def _forget_edge(self, link: Link) -> None:
+        """Take the graph edge of a link away (the link is about to lose an end)."""
+        if link.endpoint_a is None or link.endpoint_b is None:
+            return
+        node_a, node_b = link.endpoint_a._connected_node, link.endpoint_b._connected_node
+        if node_a is None or node_b is None:
+            return
+        if self._nx_graph.has_edge(node_a.config.hostname, node_b.config.hostname):
+            self._nx_graph.remove_edge(node_a.config.hostname, node_b.config.hostname)
 
     def __contains__(self, item: Any) -> bool:
         if isinstance(item, Node):
